@@ -233,7 +233,8 @@ type c02case struct {
 	streams int
 	resume  bool
 	files   []c02file
-	mode    string // honest, fault, wild
+	mode    string // honest, fault, wild, corpus-eof-race
+	sched   []string // corpus cases: forced sequence of driver moves (then random)
 }
 
 type sitem struct {
@@ -718,7 +719,11 @@ func runC02case(base string, c c02case, rep *hx.Report) c02result {
 		variant string
 	}
 	var prog []sop
-	if c.mode != "wild" {
+	if c.mode == "corpus-eof-race" {
+		// fixed be041b7: the last chunk arrives corrupted (file failed), the peer ends the control
+		// stream cleanly, and the main select sees that end (possibly) before the reader's error
+		prog = []sop{{kind: "begin", f: 0}, {kind: "chunk", f: 0, idx: 0, variant: "good"}, {kind: "chunk", f: 0, idx: 1, variant: "badcrc"}}
+	} else if c.mode != "wild" {
 		order := rng.Fork(7)
 		fi := make([]int, len(c.files))
 		for i := range fi {
@@ -954,6 +959,30 @@ func runC02case(base string, c c02case, rep *hx.Report) c02result {
 	pi := 0
 	for steps < 600 && !d.returned && d.desync == "" {
 		steps++
+		if len(c.sched) > 0 {
+			mvk := c.sched[0]
+			c.sched = c.sched[1:]
+			switch mvk {
+			case "send":
+				if pi < len(prog) && doSop(prog[pi]) {
+					pi++
+				}
+			case "main":
+				if d.mainPk != nil && r.mainReady() {
+					r.doMain()
+					r.syncMirror()
+				}
+			case "reader":
+				if r.readerEnabled(0) {
+					r.doReader(0)
+					r.syncMirror()
+				}
+			case "ctl-eof":
+				r.fault = "control-stream-eof"
+				r.failCtl("eof", nil)
+			}
+			continue
+		}
 		// inject the fault of this case
 		if c.mode == "fault" && r.fault == "" && faultAt <= 0 {
 			switch rng.Intn(6) {
@@ -1193,9 +1222,16 @@ func runC02recv(cfg config, rep *hx.Report, cf *hx.CasesFile, n int) {
 	rng := hx.NewRand(cfg.seed).Fork(2)
 	base, _ := os.MkdirTemp("", "c02")
 	defer os.RemoveAll(base)
-	for i := 0; i < n; i++ {
+	ncorpus := 10
+	for i := 0; i < n+ncorpus; i++ {
 		mode := []string{"honest", "honest", "fault", "fault", "fault", "wild"}[rng.Intn(6)]
 		c := buildCase(i, rng, mode)
+		if i < ncorpus {
+			mode = "corpus-eof-race"
+			c = c02case{id: i, seed: uint64(i), cs: 4, streams: 1, resume: i%2 == 0, mode: mode,
+				files: []c02file{{rel: "f0.bin", data: hx.NewRand(uint64(i)).Bytes(8), nchunk: 2}},
+				sched: []string{"send", "main", "send", "reader", "send", "reader", "ctl-eof", "main", "main", "main"}}
+		}
 		if mode == "wild" && len(c.files) == 0 {
 			mode, c.mode = "honest", "honest"
 		}
@@ -1239,7 +1275,7 @@ func runC02recv(cfg config, rep *hx.Report, cf *hx.CasesFile, n int) {
 
 func runC02(cfg config) *hx.Report {
 	rep := hx.NewReport("C02")
-	rep.Rule = "receiver: scripted peer programs (honest / honest + one fault: control or data stream ended cleanly, cut inside a record or frame, graceful close, abrupt loss, corrupted payload, receiver cancelled / arbitrary record and frame soup) against the real RecvManifestMultiStream with all goroutines stepped at hook points; non-trivial = at least 6 model events; distinct by (seed, length)"
+	rep.Rule = "both real endpoints: one fault per transfer (stream or connection cut at a byte position gracefully / abruptly, payload bit flipped, either side cancelled, source file shrinks or vanishes after the scan, output path obstructed), non-trivial = the fault actually struck; sender: the real SendManifestMultiStream against a scripted receiver (every file acknowledged / one file failed / control stream ended cleanly / connection lost / connection closed with code 0 / caller cancels / no acknowledgement / fault before the first file); receiver: scripted peer programs (honest / honest + one fault: control or data stream ended cleanly, cut inside a record or frame, graceful close, abrupt loss, corrupted payload, receiver cancelled / arbitrary record and frame soup) against the real RecvManifestMultiStream with all goroutines stepped at hook points; non-trivial = at least 6 model events; distinct by (seed, length)"
 	cf := &hx.CasesFile{Dir: cfg.out, Name: "recv", Module: "C02", Imports: []string{"Model.Recv", "Corr.C02"}, PerShard: 150}
 	n := 450
 	if cfg.tier == "thorough" {
@@ -1247,6 +1283,18 @@ func runC02(cfg config) *hx.Report {
 	}
 	runC02recv(cfg, rep, cf, n)
 	cf.Close()
+	cs := &hx.CasesFile{Dir: cfg.out, Name: "send", Module: "C02", Imports: []string{"Model.Recv", "Model.Send", "Corr.C02"}, PerShard: 300}
+	ns := 60
+	if cfg.tier == "thorough" {
+		ns = 600
+	}
+	runC02send(cfg, rep, cs, ns)
+	cs.Close()
+	ne := 150
+	if cfg.tier == "thorough" {
+		ne = 3000
+	}
+	runC02e2e(cfg, rep, ne)
 	return rep
 }
 
